@@ -203,6 +203,14 @@ RECIPES.update({
     'multi_channel_result_ctor1': dict(unit='chkpt', name='multi_channel_result', cls='multi_channel_result', self='multi_channel_result', ctor=True, sel='istream', opts=_ST_OPTS),
     'rng_chkpt_plain_result_serialize': dict(unit='chkpt', name='serialize', cls='chkpt_with_rng', cls_targs_has='plain_result', self='rng_chkpt_plain_result', opts=_ST_OPTS),
     'rng_chkpt_plain_result_ctor1': dict(unit='chkpt', name='chkpt_with_rng', cls='chkpt_with_rng', cls_targs_has='plain_result', self='rng_chkpt_plain_result', ctor=True, sel='istream', opts=_ST_OPTS),
+    'distribution_parameters_serialize': dict(name='serialize', cls='distribution_parameters', self='distribution_parameters', opts=dict(streams=True, stream_lines=True)),
+    'distribution_parameters_ctor1': dict(name='distribution_parameters', cls='distribution_parameters', self='distribution_parameters', ctor=True, sel='istream', opts=dict(streams=True, stream_lines=True)),
+    'distribution_result_serialize': dict(name='serialize', cls='distribution_result', self='distribution_result', opts=_ST_OPTS),
+    'distribution_result_ctor1': dict(name='distribution_result', cls='distribution_result', self='distribution_result', ctor=True, sel='istream', opts=_ST_OPTS),
+    'plain_result_serialize': dict(name='serialize', cls='plain_result', self='plain_result', opts=_ST_OPTS),
+    'plain_result_ctor1': dict(name='plain_result', cls='plain_result', self='plain_result', ctor=True, sel='istream', opts=_ST_OPTS),
+    'chkpt_plain_result_serialize': dict(unit='chkpt', name='serialize', cls='chkpt', cls_targs=['hep::plain_result<double>'], self='chkpt_plain_result', opts=dict(streams=True, stream_lines=True)),
+    'chkpt_plain_result_ctor1': dict(unit='chkpt', name='chkpt', cls='chkpt', cls_targs=['hep::plain_result<double>'], self='chkpt_plain_result', ctor=True, sel='istream', opts=dict(streams=True, stream_lines=True)),
     'vegas_pdf_serialize': dict(name='serialize', cls='vegas_pdf', self='vegas_pdf', opts=_ST_OPTS),
     'vegas_pdf_ctor1': dict(name='vegas_pdf', cls='vegas_pdf', self='vegas_pdf', ctor=True, sel='istream', opts=_ST_OPTS),
     'vegas_chkpt_serialize': dict(unit='chkpt', name='serialize', cls='vegas_chkpt', self='vegas_chkpt', opts=_ST_OPTS),
@@ -257,6 +265,8 @@ _T_USER = 'user integrand and virtual point.weight() are contract stubs returnin
 JOBS = [
     dict(name='usage_enumeration', kind='native-bounded', bounded=True, cpp='usage', obligation='C10.usage',
          what='random_number_usage<T,R>() equals the raw draws of one generate_canonical call', props=['C10', 'C04']),
+    dict(name='c05_native_roundtrip', kind='native-bounded', bounded=True, cpp='c05', obligation='C05.native_roundtrip', input_obligation='C05.native_roundtrip', reals=['float', 'double', 'long double'],
+         what='write -> text -> read of mc_result, distribution parameters (regular names), plain/VEGAS/multi-channel checkpoints with nine standard engines on a fixed set of hard finite values, REAL templates', props=['C05', 'C03']),
     dict(name='ieee_facts', kind='lemma', source='lemmas/ieee_facts.c', real='double', thorough_reals=['float'],
          props=['C07', 'C09', 'C08', 'C17', 'C01', 'C02', 'C06'], timeout=dict(quick=240, thorough=1200)),
     dict(name='accumulate', functions=['accumulate'], entry='h_accumulate', enforce='accumulate', solvers=['cvc5', 'cadical'],
@@ -264,11 +274,11 @@ JOBS = [
     dict(name='invoke_nodist', functions=['accumulator_nodist_invoke', 'accumulate'], entry='h_accumulator_nodist_invoke', af=['accumulator_nodist_invoke'],
          enforce='accumulator_nodist_invoke', replace=['accumulate'],
          structs=_ST_ACC + [dict(cls='integrand', cname='integrand', opaque=True)], late_preludes=['stubs.h'], globals=_GHOSTS,
-         props=['C02', 'C06', 'C17', 'C01'], thorough_reals=['float'], trusted=[_T_USER]),
+         props=['C02', 'C06', 'C17', 'C01', 'C14'], key_props=['C02', 'C06', 'C17', 'C01'], thorough_reals=['float'], trusted=[_T_USER]),
     dict(name='invoke_dist', functions=['accumulator_dist_invoke', 'accumulate', 'projector_ctor2'], entry='h_accumulator_dist_invoke', af=['accumulator_dist_invoke'],
          enforce='accumulator_dist_invoke', replace=['accumulate'],
          structs=_ST_DIST, preludes=['opaque.h'], late_preludes=['stubs.h'], globals=_GHOSTS,
-         defines=['VP_WITH_PROJECTOR', 'VP_NMAX=65536'], props=['C02', 'C06', 'C17', 'C01'], thorough_reals=['float'],
+         defines=['VP_WITH_PROJECTOR', 'VP_NMAX=65536'], props=['C02', 'C06', 'C17', 'C01', 'C14'], key_props=['C02', 'C06', 'C17', 'C01'], thorough_reals=['float'],
          trusted=[_T_USER, 'the integrand may change only bin slots through the projector (proved for add_to_1d/2d_distribution in jobs dist1d/dist2d)']),
     dict(name='result_nodist', functions=['accumulator_nodist_result', 'plain_result_ctor6', 'mc_result_ctor5'], entry='h_accumulator_nodist_result',
          enforce='accumulator_nodist_result', structs=_ST_RES, preludes=['opaque.h'], late_preludes=['stubs.h'], globals=_GHOSTS,
@@ -318,7 +328,7 @@ JOBS = [
          af=['accumulator_nodist_invoke_mc', 'multi_channel_point2_weight'],
          structs=_ST_MC + [dict(cls='accumulator', cls_targs=['double', '0'], cname='accumulator_nodist'), dict(cname='multi_channel_integrand', opaque=True)],
          preludes=['opaque.h'], late_preludes=['stubs.h'], globals=_GHOSTS + _MAPGHOSTS, defines=['VP_NMAX=1048576', 'VP_MC_PROTOCOL'],
-         props=['C17', 'C02', 'C06', 'C01'], trusted=[_T_USER]),
+         props=['C17', 'C02', 'C06', 'C01', 'C14'], key_props=['C17', 'C02', 'C06', 'C01'], trusted=[_T_USER]),
     dict(name='multi_channel_iteration', functions=['multi_channel_iteration', 'accumulator_nodist_invoke_mc', 'multi_channel_point2_weight', 'multi_channel_point2_ctor7', 'multi_channel_point_ctor4',
                                                      'mc_point_ctor2', 'multi_channel_point_channel', 'multi_channel_point_coordinates', 'mc_point_point',
                                                      'multi_channel_integrand_map_dimensions', 'multi_channel_integrand_map', 'multi_channel_result_ctor3',
@@ -443,8 +453,24 @@ JOBS = [
          props=['C05', 'C03', 'C19'], trusted=['iostream contract of vp/prelude/stream.h', 'nested plain_result is a single token in this lemma', 'BOUNDED: at most 6 channels (loops unwound with unwinding assertions)']),
     dict(name='c05_rng_chkpt', functions=['rng_chkpt_plain_result_serialize', 'rng_chkpt_plain_result_ctor1'], specs=['c05_rng_chkpt'], harness_sections=['c05_rng_chkpt'],
          entry='h_c05_rng_chkpt', enforce=None, bounded=True, cbmc_flags=['--unwind', '9', '--unwinding-assertions'],
-         structs=[dict(prelude='stream.h')] + _ST_CHK + [dict(prelude='stream_stubs.h')], preludes=['opaque.h'], globals='T nondet_T(void); size_t nondet_size_t(void);', loop_contracts=False,
-         props=['C05', 'C03'], trusted=['iostream contract of vp/prelude/stream.h', 'operator<< / operator>> of a standard random number engine round-trip its state ([rand.req.eng]); an engine is one token', 'BOUNDED: at most 6 results, 7 generators (loops unwound with unwinding assertions)']),
+         structs=[dict(prelude='opaque.h'), dict(prelude='stream.h'), dict(prelude='stream_str.h')] + _ST_CHK + [dict(prelude='stream_stubs.h')], preludes=['opaque.h'], globals='T nondet_T(void); size_t nondet_size_t(void);', loop_contracts=False,
+         props=['C05', 'C03'], trusted=['iostream contract of vp/prelude/stream.h', 'operator<< / operator>> of a standard random number engine round-trip its state when the text starts at the read position ([rand.req.eng]; no whitespace skipping assumed); an engine is one token', 'BOUNDED: at most 6 results, 7 generators (loops unwound with unwinding assertions)']),
+    dict(name='c05_distribution_parameters', functions=['distribution_parameters_serialize', 'distribution_parameters_ctor1'], specs=['c05_distribution_parameters'], harness_sections=['c05_distribution_parameters'],
+         entry='h_c05_distribution_parameters', enforce=None, no_sof=True,
+         structs=[dict(prelude='opaque.h'), dict(prelude='stream.h'), dict(prelude='stream_str.h'), dict(cls='distribution_parameters')], globals='T nondet_T(void); size_t nondet_size_t(void);', loop_contracts=False,
+         props=['C05', 'C03'], trusted=['iostream contract of vp/prelude/stream.h and stream_str.h (operator<<(string) verbatim, std::ws skips all whitespace, getline reads one line)', 'a name is a ghost identity with the attributes "empty" and "leading blank" (uninterpreted); names containing a newline are excluded by C05']),
+    dict(name='c05_distribution_result', functions=['distribution_result_serialize', 'distribution_result_ctor1', 'distribution_parameters_bins_x', 'distribution_parameters_bins_y'], specs=['c05_distribution_result'], harness_sections=['c05_distribution_result'],
+         entry='h_c05_distribution_result', enforce=None, bounded=True, cbmc_flags=['--unwind', '8', '--unwinding-assertions'],
+         structs=[dict(prelude='stream.h')] + _ST_VCHK[:3], preludes=['opaque.h'], globals='T nondet_T(void); size_t nondet_size_t(void);', loop_contracts=False,
+         props=['C05', 'C03'], trusted=['iostream contract of vp/prelude/stream.h', 'nested parameters and per-bin results are tokens in this lemma', 'BOUNDED: at most 3 x 2 bins (loops unwound with unwinding assertions)']),
+    dict(name='c05_plain_result', functions=['plain_result_serialize', 'plain_result_ctor1'], specs=['c05_plain_result'], harness_sections=['c05_plain_result'],
+         entry='h_c05_plain_result', enforce=None, bounded=True, cbmc_flags=['--unwind', '7', '--unwinding-assertions'],
+         structs=[dict(prelude='stream.h')] + _ST_VCHK[:4], preludes=['opaque.h'], globals='T nondet_T(void); size_t nondet_size_t(void);', loop_contracts=False,
+         props=['C05', 'C03'], trusted=['iostream contract of vp/prelude/stream.h', 'the integral\'s mc_result and each distribution_result are tokens in this lemma', 'BOUNDED: at most 5 distributions (loops unwound with unwinding assertions)']),
+    dict(name='c05_chkpt_base', functions=['chkpt_plain_result_serialize', 'chkpt_plain_result_ctor1'], specs=['c05_chkpt_base'], harness_sections=['c05_chkpt_base'],
+         entry='h_c05_chkpt_base', enforce=None, bounded=True, cbmc_flags=['--unwind', '12', '--unwinding-assertions'],
+         structs=[dict(prelude='opaque.h'), dict(prelude='stream.h'), dict(prelude='stream_str.h')] + _ST_CHK[:6], preludes=['opaque.h'], globals='T nondet_T(void); size_t nondet_size_t(void);', loop_contracts=False,
+         props=['C05', 'C03'], trusted=['iostream contract of vp/prelude/stream.h and stream_str.h (peek / ignore(max, newline) skip one line)', 'each result is one token in this lemma', 'BOUNDED: at most 4 results (loops unwound with unwinding assertions)']),
     dict(name='refine_weights', functions=['multi_channel_refine_weights'], entry='h_multi_channel_refine_weights',
          enforce='multi_channel_refine_weights', replace=['vp_pow'], af=['multi_channel_refine_weights'], globals='T vp_g_s1, vp_g_s2; _Bool vp_g_nodata;',
          defines=['VP_NMAX=1048576'], props=['C08'], thorough_reals=['float'],
@@ -473,4 +499,5 @@ NATIVEJOBS = []
 REPLAYS = {'c16_tiling': dict(cpp='c16', link_fragments=[f for f in sorted(FRAGMENTS) if f.startswith('mpi_')]),
            'invoke_nodist': 'invoke', 'invoke_dist': 'invoke',
            'usage_enumeration': 'usage', 'refine_weights': 'refine_weights', 'result_formulas': 'result', 'callback_decision': 'callback', 'weighted_with_variance': 'callback', 'chkpt_rollback': 'chkpt', 'chkpt_add': 'chkpt', 'chkpt_generator': 'chkpt',
-           'discrete_ctor': 'discrete', 'discrete_call': 'discrete', 'discrete_select': 'discrete', 'partial_sum': 'discrete'}
+           'discrete_ctor': 'discrete', 'discrete_call': 'discrete', 'discrete_select': 'discrete', 'partial_sum': 'discrete',
+           'c05_': dict(cpp='c05', no_inputs_needed=True)}
